@@ -42,6 +42,9 @@ type Config struct {
 	ByKey      bool   `json:"by_key"`
 	SleepAdv   bool   `json:"sleep_adv"`
 	ValueKinds bool   `json:"value_kinds"` // F3: values of several Go types
+	// Prefix: the exploration does not start from the initial state but after this many rounds of
+	// sparse traffic on value A (one token, then a pause just over one duration)
+	Prefix int `json:"sparse_prefix_rounds,omitempty"`
 }
 
 func (c Config) String() string { b, _ := json.Marshal(c); return string(b) }
@@ -87,6 +90,7 @@ type admission struct {
 }
 
 type scen struct {
+	prefixBad string
 	cfg       Config
 	ops       []opDef
 	now       int64
@@ -137,6 +141,27 @@ func (s *scen) Reset() {
 	}
 	if len(hotspot.GetRules()) != len(rules) {
 		panic("harness: hotspot rule not accepted: " + s.cfg.String())
+	}
+	s.prefixBad = ""
+	if s.cfg.Prefix > 0 {
+		reqA, pause := -1, -1
+		for i, o := range s.ops {
+			if o.req && o.val == 0 && o.batch == 1 && reqA < 0 {
+				reqA = i
+			}
+			if !o.req && o.tick == s.cfg.D*1000+1 {
+				pause = i
+			}
+		}
+		if reqA < 0 || pause < 0 {
+			panic("harness: prefix operations not in the alphabet")
+		}
+		for k := 0; k < s.cfg.Prefix && s.prefixBad == ""; k++ {
+			if _, v := s.apply(reqA); v != "" {
+				s.prefixBad = fmt.Sprintf("in sparse round %d of the prefix: %s", k+1, v)
+			}
+			s.apply(pause)
+		}
 	}
 }
 
@@ -201,6 +226,13 @@ func (s *scen) call(res string, v int, batch uint32) answer {
 }
 
 func (s *scen) Apply(i int) (string, string) {
+	if s.prefixBad != "" {
+		return "", s.prefixBad
+	}
+	return s.apply(i)
+}
+
+func (s *scen) apply(i int) (string, string) {
 	o := s.ops[i]
 	if !o.req {
 		s.now += o.tick
@@ -425,6 +457,12 @@ func configs(quick bool) []Config {
 		out = append(out, Config{Family: "F3", T: 1, D: 1, SpecA: -1, Index: idx, ValueKinds: true})
 	}
 	out = append(out, Config{Family: "F3", T: 1, D: 1, SpecA: -1, ByKey: true}, Config{Family: "F3", T: 1, D: 1, SpecA: -1, ByKey: true, ValueKinds: true})
+	// F5 reject, starting after sparse traffic (states the depth bound does not reach from the start)
+	for _, t := range []int64{2, 3} {
+		for _, pre := range []int{3, 6} {
+			out = append(out, Config{Family: "F5", T: t, Burst: int64(pre % 2), D: 1, SpecA: -1, Prefix: pre})
+		}
+	}
 	// F4 capacity below the number of values
 	for _, capa := range []int64{1, 2} {
 		out = append(out, Config{Family: "F4", T: 2, Burst: 1, D: 1, SpecA: -1, Capacity: capa})
